@@ -212,6 +212,12 @@ def strict_cases(rnd, n, prefix):
     for i in range(n):
         inv = rnd.random() < .4
         T = gen.schema_graph(rnd, inverse_safe=inv)
+        if rnd.random() < .05:
+            # a document may state a triple more than once (overlapping dumps): the graph it denotes is the same, but sheXer
+            # counts statements, not triples - a recorded finding (KF.C03.duplicates) that these few cases keep visible
+            types = [t for t in T if t[1] == M.RDF_TYPE]
+            for t in rnd.sample(types, min(len(types), rnd.randint(1, 2))):
+                T.insert(rnd.randint(0, len(T)), t)
         cfg = dict(allCompliant=True, keepLess=True, thr=[0, 1], discardUseless=rnd.random() < .5,
                    allowOpt=rnd.random() < .6, disableExact=rnd.random() < .4, inverse=inv)
         cases.append(gen.case("%s%d" % (prefix, i), T, **cfg))
